@@ -28,6 +28,12 @@ type Scenario struct {
 	Deact bool `json:"deact,omitempty"`
 	// PushOnly allows push-only syncs (counted in Y).
 	PushOnly bool `json:"pushonly,omitempty"`
+	// EditsFirst: no edit after the first sync (all edits are pairwise
+	// concurrent); MaxSyncPerClient bounds the syncs of one client (0 = Y).
+	// Together they give the wide-and-shallow shape used for 4-5 clients: every
+	// subset of clients edits once, then every order in which clients sync.
+	EditsFirst       bool `json:"edits_first,omitempty"`
+	MaxSyncPerClient int  `json:"max_sync_per_client,omitempty"`
 	// F failed updates at most ("fu": an updater that edits and then returns an
 	// error; the document discards its working copy and re-clones it from the
 	// authoritative root before the next use).
@@ -47,6 +53,7 @@ func (sc *Scenario) alphabet(c int) []string {
 type budget struct {
 	k, y, u, d, e, f int
 	perClient     []int
+	perSync       []int
 	lateAttached  []bool
 }
 
@@ -56,7 +63,7 @@ func (sc *Scenario) candidates(b *budget) []Event {
 	var out []Event
 	total := sc.N + sc.Late
 	for c := 0; c < total; c++ {
-		if b.k < sc.K && (sc.MaxPerClient == 0 || b.perClient[c] < sc.MaxPerClient) {
+		if b.k < sc.K && (sc.MaxPerClient == 0 || b.perClient[c] < sc.MaxPerClient) && !(sc.EditsFirst && b.y > 0) {
 			for _, op := range sc.alphabet(c) {
 				out = append(out, Event{K: "e", C: c, Op: op})
 			}
@@ -67,7 +74,7 @@ func (sc *Scenario) candidates(b *budget) []Event {
 		if b.f < sc.F {
 			out = append(out, Event{K: "fu", C: c})
 		}
-		if b.y < sc.Y {
+		if b.y < sc.Y && (sc.MaxSyncPerClient == 0 || b.perSync[c] < sc.MaxSyncPerClient) {
 			out = append(out, Event{K: "s", C: c})
 			if sc.PushOnly {
 				out = append(out, Event{K: "po", C: c})
@@ -98,6 +105,7 @@ func (b *budget) add(sc *Scenario, e Event, sign int) {
 		b.perClient[e.C] += sign
 	case "s", "po":
 		b.y += sign
+		b.perSync[e.C] += sign
 	case "un", "re":
 		b.u += sign
 	case "fu":
@@ -165,7 +173,7 @@ type EnumStats struct {
 // visitor not to count them unless shard 0).
 func Enumerate(sc *Scenario, shardDepth, shard, nshards int, visit func(h []Event, mine bool) bool) EnumStats {
 	var st EnumStats
-	b := &budget{perClient: make([]int, sc.N+sc.Late), lateAttached: make([]bool, sc.N+sc.Late)}
+	b := &budget{perClient: make([]int, sc.N+sc.Late), perSync: make([]int, sc.N+sc.Late), lateAttached: make([]bool, sc.N+sc.Late)}
 	var h []Event
 	subtree := 0
 	var rec func(owned bool)
